@@ -27,7 +27,7 @@ WHERE = {}
 
 @st.composite
 def _cell(draw):
-    kind = draw(st.sampled_from(["ortho", "special", "tric", "tric", "neardeg"]))
+    kind = draw(st.sampled_from(["ortho", "special", "tric", "tric", "neardeg", "needle"]))
     L = [math.exp(draw(st.floats(math.log(0.1), math.log(50.0)))) for _ in range(3)]
     if kind == "ortho":
         A = [90.0, 90.0, 90.0]
@@ -38,6 +38,9 @@ def _cell(draw):
             L = [L[0]] * 3
     elif kind == "tric":
         A = gen._fix_angles(*[draw(st.floats(45, 135)) for _ in range(3)], margin=0.02)
+    elif kind == "needle":
+        # three small angles (4-6.2 degrees: each below the sum and above the difference of the other two): a valid, very acute cell
+        A = [draw(st.floats(4.0, 6.2)) for _ in range(3)]
     else:
         # near-degenerate: gamma close to alpha+beta (flat cell), pulled back until the volume factor exceeds 1e-3
         al, be = draw(st.floats(40, 80)), draw(st.floats(40, 80))
